@@ -2,7 +2,7 @@
 
 use std::{
     fs::File,
-    io::{self, BufReader, BufWriter},
+    io::{self, BufReader, BufWriter, Write},
     path::Path,
 };
 
@@ -50,5 +50,6 @@ where
 {
     let mut writer = File::create(dst).map(BufWriter::new).map(Writer::new)?;
     writer.write_index(index)?;
+    writer.get_mut().flush()?;
     Ok(())
 }
